@@ -524,8 +524,25 @@ def gen_implicit(rng) -> dict[str, Any]:
     return {"kind": "implicit", "steps": steps}
 
 
+def implicit_grid():
+    """Every option of liquid.Template() flipped between two templates made back to back, in both orders and with a third template of the
+    first option set afterwards (a memo that forgets an option in its key shows up here whichever option it is)."""
+    flips = {"autoescape": (False, True), "undefined": ("default", "strict"), "mode": ("strict", "lax"), "strict_filters": (True, False), "template_comments": (False, True), "extra": (False, True)}
+    for key, (v0, v1) in flips.items():
+        for first, second in ((v0, v1), (v1, v0)):
+            for src, data in IMPLICIT_SOURCES:
+                base = {"autoescape": False, "undefined": "default", "mode": "lax", "strict_filters": True}
+                o1, o2 = dict(base, **{key: first}), dict(base, **{key: second})
+                steps = [["create", 0, src, o1], ["create", 1, src, o2], ["create", 2, src, o1]]
+                steps += [["render", i, V.enc(data), f"{i}.0"] for i in (0, 1, 2)]
+                yield {"kind": "implicit", "steps": steps}
+
+
 def cases(ctx: core.Ctx):
     rng = ctx.rng("cases")
+    for gi, c in enumerate(implicit_grid()):
+        if gi % ctx.nshards == ctx.shard and (ctx.tier != "quick" or gi % 2 == 0):
+            yield c
     n = ctx.budget(2200, 250_000)
     for i in range(n):
         if i % 40 == 20:
